@@ -88,27 +88,30 @@ type vfStep struct {
 }
 
 type vfSession struct {
-	beforeStart      func() // optional: runs in setupPair after gathering, before the agents are started
-	afterRegather    func() // optional: runs in coordinatedRestart after both sides regathered, before remote credentials are set again
-	forgeValidTCP    bool   // C02: the next forged message is a valid check from a new TCP peer address to a TCP passive candidate
-	mdnsSignalling   bool   // C06: signalled host candidates are sometimes mDNS names (already resolved, as the agent would)
-	mappedSignalling bool   // C06: signalled IPv4 candidates are sometimes spelled ::ffff:a.b.c.d
-	peerMute         bool   // C03: the scripted peer withholds every response
-	forgeUnstarted   bool   // C02: forged messages may also be injected into an agent that was not started yet
-	e                *vfEnv
-	r                *vfResult
-	rng              *rand.Rand
-	sw               *vfSwitch
-	A, B             *vfSide
-	P                *vfPeer
-	dataSt           map[*vfSide]*vfDataState
-	steps            []vfStep
-	stepN            int
-	idx              int
-	desc             map[string]any
-	start            time.Time
-	broken           string // set when the harness itself lost quiescence: the run becomes inconclusive
-	mon              struct{ c03, c04, c06, c07 bool }
+	beforeStart       func()   // optional: runs in setupPair after gathering, before the agents are started
+	afterRegather     func()   // optional: runs in coordinatedRestart after both sides regathered, before remote credentials are set again
+	forgeValidTCP     bool     // C02: the next forged message is a valid check from a new TCP peer address to a TCP passive candidate
+	mdnsSignalling    bool     // C06: signalled host candidates are sometimes mDNS names (already resolved, as the agent would)
+	mappedSignalling  bool     // C06: signalled IPv4 candidates are sometimes spelled ::ffff:a.b.c.d
+	peerMute          bool     // C03: the scripted peer withholds every response
+	agents            sync.Map // side name -> *Agent (read from the switch's emit hook)
+	ucMu              sync.Mutex
+	ucWhileControlled []string // USE-CANDIDATE requests that left an agent while its role was controlled
+	forgeUnstarted    bool     // C02: forged messages may also be injected into an agent that was not started yet
+	e                 *vfEnv
+	r                 *vfResult
+	rng               *rand.Rand
+	sw                *vfSwitch
+	A, B              *vfSide
+	P                 *vfPeer
+	dataSt            map[*vfSide]*vfDataState
+	steps             []vfStep
+	stepN             int
+	idx               int
+	desc              map[string]any
+	start             time.Time
+	broken            string // set when the harness itself lost quiescence: the run becomes inconclusive
+	mon               struct{ c03, c04, c06, c07 bool }
 	// expectations maintained by workloads
 	noPairPossible bool
 }
@@ -136,6 +139,20 @@ func (s *vfSession) other(x *vfSide) *vfSide {
 func newVfSession(e *vfEnv, r *vfResult, idx int, stream string) *vfSession {
 	s := &vfSession{e: e, r: r, rng: e.rng(idx, stream), sw: newVfSwitch(), idx: idx, desc: map[string]any{}, start: time.Now()}
 	s.mon.c03, s.mon.c04, s.mon.c06 = true, true, true
+	// role at the moment of emission: the send happens inside a loop task, so the (atomic) role read here is the
+	// role the agent had when it decided to send
+	s.sw.onEmit = func(d *vfDgram) {
+		if d.Forged || d.Stun == nil || d.Stun.Class != "request" || !d.Stun.UseCand {
+			return
+		}
+		if v, ok := s.agents.Load(d.Emitter); ok {
+			if a, _ := v.(*Agent); a != nil && !a.isControlling.Load() {
+				s.ucMu.Lock()
+				s.ucWhileControlled = append(s.ucWhileControlled, fmt.Sprintf("%s -> %s (datagram #%d, nomination %v)", d.SrcPriv, d.Dst, d.ID, d.Stun.Nomination != nil))
+				s.ucMu.Unlock()
+			}
+		}
+	}
 
 	return s
 }
@@ -249,6 +266,7 @@ func (s *vfSession) newSide(cfg vfSideCfg) (*vfSide, error) {
 		return nil, err
 	}
 	x.a = a
+	s.agents.Store(cfg.Name, a)
 	if cfg.TieBreaker != 0 {
 		a.tieBreaker = cfg.TieBreaker
 	}
@@ -1001,6 +1019,12 @@ func (s *vfSession) monitorC03(x *vfSide, sn *vfSnap) { //nolint:cyclop
 
 // emittedCheck classifies what an agent puts on the wire (C03 clauses on USE-CANDIDATE and lite agents).
 func (s *vfSession) emittedCheck(from int) {
+	s.ucMu.Lock()
+	uc := append([]string{}, s.ucWhileControlled...)
+	s.ucMu.Unlock()
+	if len(uc) > 0 {
+		s.viol("C03", "controlled-sent-use-candidate", fmt.Sprintf("%d Binding request(s) with USE-CANDIDATE left an agent while its role was controlled: %v", len(uc), uc), nil)
+	}
 	for _, d := range s.sw.wireFrom(from) {
 		if d.Forged || d.Stun == nil || !d.Stun.Binding || d.Stun.Class != "request" {
 			continue
